@@ -40,6 +40,8 @@ def gen_case(rng, index, tier):
                                              '.trashinfo.bak', '.trashinfo.trashinfo']))
                for i in range(n)],
         kinds=['file', 'tree', 'tree', 'link_dangling', 'empty', 'dir_empty'])
+    if cmd != 'restore' and trashworld.mount_on_payload(L, rng, entries, p=0.15):
+        pass            # a file system is mounted on one trashed directory
     case = L.desc()
     case['cmd'] = cmd
     case['entries'] = entries
@@ -134,6 +136,16 @@ def run_case(case):
         refn = inject.norm_events(ref.events, w.R)
         ks = inject.mut_positions(ref.events)
         ref_states = [trashworld.entry_state(s0, s1, e) for e in ents]
+        # the undisturbed run itself: whatever it could not remove (a mount
+        # point, a busy directory) keeps its .trashinfo
+        nref = putcheck.norm_sig(s1)
+        obs['complete_runs_judged'] = 1
+        for e in ents:
+            ik, pk = trashworld.pair_keys(e)
+            if pk in nref and ik not in nref:
+                out['violations'].append({
+                    'mechanism': 'payload-stranded-without-info/%s/complete-run' % cmd,
+                    'detail': {'entry': e, 'run': ref.brief()}})
     finally:
         w.destroy()
     if not ks:
@@ -288,6 +300,9 @@ def run_case(case):
             wk.destroy()
     obs['distinct_crash_points'] = len(ks)
     out['nontrivial'] = True
+    if any(e.get('mountpoint') for e in ents):
+        obs['payload_is_a_mount_point'] = 1
+        out['replayable'] = False
     out['sample_obs'] = {'cmd': cmd, 'mutating_events': len(ks),
                          'ref_states': ref_states}
     out['verdict'] = 'violation' if out['violations'] else 'ok'
